@@ -630,6 +630,55 @@ func (rp retPath) pathFacts() []EdgeFact {
 // pathSet: value set of the tracked value along rp (sets = valueSets(fn, v, is)).
 func (rp retPath) pathSet(sets map[*ssa.BasicBlock]iset, is tracker) iset {
 	s := sets[rp.from]
+	// the edge taken tests a phi of rp.from against nil / as a flag: only the predecessors whose incoming
+	// value is consistent with the outcome can have been the way in, so the set is the union over those
+	if rp.edgeTo != nil {
+		for _, f := range edgeFactOf(rp.from, rp.edgeTo) {
+			var phi *ssa.Phi
+			want := 0
+			if c, ok := normFact(f); ok && (c.Op == token.EQL || c.Op == token.NEQ) {
+				x, y := c.X, c.Y
+				if isNilConst(x) {
+					x, y = y, x
+				}
+				if p, ok := x.(*ssa.Phi); ok && isNilConst(y) && p.Block() == rp.from {
+					phi = p
+					want = 2
+					if c.Op == token.EQL {
+						want = 1
+					}
+				}
+			}
+			if phi == nil {
+				continue
+			}
+			var u iset
+			any := false
+			for i, e := range phi.Edges {
+				state := 0
+				if isNilConst(e) {
+					state = 1
+				} else if isErrorType(e.Type()) && definitelyNonNilErr(e, nil) {
+					state = 2
+				}
+				if state != 0 && state != want {
+					continue
+				}
+				pred := rp.from.Preds[i]
+				ps := sets[pred]
+				for si, succ := range pred.Succs {
+					if succ == rp.from {
+						ps = ps.intersect(constraintOnEdge(pred, si, is))
+					}
+				}
+				u = u.union(ps)
+				any = true
+			}
+			if any {
+				s = s.intersect(u)
+			}
+		}
+	}
 	if rp.edgeTo != nil {
 		for si, succ := range rp.from.Succs {
 			if succ == rp.edgeTo {
